@@ -6,7 +6,8 @@ CONSTANTS H0, FUND
 Table == ("alpha.jkl" :> [len |-> 5, tld |-> "jkl"]) @@ ("beta.jkl" :> [len |-> 4, tld |-> "jkl"])
       @@ ("ab.ibc" :> [len |-> 2, tld |-> "ibc"]) @@ ("x.jkl" :> [len |-> 1, tld |-> "jkl"])
       @@ ("gamma.ibc" :> [len |-> 5, tld |-> "ibc"]) @@ ("abc.jkl" :> [len |-> 3, tld |-> "jkl"])
-      @@ ("freeone.jkl" :> [len |-> 7, tld |-> "jkl"])
+      @@ ("freeone.jkl" :> [len |-> 7, tld |-> "jkl"]) @@ ("longername.ibc" :> [len |-> 10, tld |-> "ibc"])
+      @@ ("abcdef.jkl" :> [len |-> 6, tld |-> "jkl"])
 MCNameInfo == [n \in Names |-> Table[n]]
 CONSTANTS PriceAmts
 MCAllJumps == 0..2000000000
